@@ -109,8 +109,10 @@ class FullTranslator(Translator):
                 if not env.extract:
                     self.bad(n, 'reference to local %s that is not bound here' % r.get('name'))
                 ty = self.check_param(d) if rk == 'ParmVarDecl' else self.resolve(d['type'], d)
-                if ty.kind not in ('int', 'bool', 'rec', 'pair', 'vec'):
+                if ty.kind not in ('int', 'bool', 'rec', 'pair', 'vec', 'ptr'):
                     self.bad(n, 'free variable %s of unsupported type' % r.get('name'))
+                if ty.kind == 'ptr':
+                    env.buf = True
                 off = (d.get('range', {}).get('begin', {}) or {}).get('offset', 0)
                 nm = env.fresh(d['name'])
                 env.free[rid] = (nm, ty, off)
@@ -132,6 +134,11 @@ class FullTranslator(Translator):
             return E(paren(e.term) + ''.join('.' + p for p in path), dst, e.defd)
         e = self.ex(sub, env)
         dst = self.resolve(n['type'], n)
+        if ck == 'BitCast':
+            # reinterpret_cast between `const char*` and `const unsigned char*`: same address, other signedness of `*p`
+            if e.ty.kind != 'ptr' or dst.kind != 'ptr' or n.get('kind') not in ('CXXReinterpretCastExpr', 'CStyleCastExpr', 'ImplicitCastExpr'):
+                self.bad(n, 'pointer cast other than between `const char*` and `const unsigned char*`')
+            return E(e.term, dst, e.defd)
         if ck == 'IntegralCast':
             if e.ty.kind == 'bool':
                 return self.int_from(E('%sofBool %s' % (SEM, paren(e.term)), Ty('int', 8, False), e.defd), dst)
@@ -157,6 +164,7 @@ class FullTranslator(Translator):
     ex_CXXStaticCastExpr = cast
     ex_CStyleCastExpr = cast
     ex_CXXFunctionalCastExpr = cast
+    ex_CXXReinterpretCastExpr = cast
 
     def int_from(self, e, dst):
         if dst.w is None:
@@ -189,8 +197,19 @@ class FullTranslator(Translator):
     # ---- operators -----------------------------------------------------------------------------
     def ex_UnaryOperator(self, n, env):
         op = n['opcode']
+        if op in ('++', '--'):
+            if n.get('id') in env.hoisted:
+                return self.ex(n['inner'][0], env)     # postfix: the old value; the increment follows the statement (x2l_st.py)
+            self.bad(n, 'operator `%s` inside an expression (only as a statement, or ONE postfix increment of a variable that occurs '
+                        'nowhere else in an assignment statement)' % op)
         e = self.ex(n['inner'][0], env)
         a = paren(e.term)
+        if op == '*':
+            if e.ty.kind == 'pptr':
+                return E(e.term, Ty('ptr', 8, e.ty.signed), e.defd)       # `*data`: the cursor cell
+            if e.ty.kind == 'ptr':
+                return self.deref(e, None)
+            self.bad(n, 'unary * on %r' % e.ty)
         if op == '!':
             if e.ty.kind != 'bool':
                 self.bad(n, '! on a non-bool')
@@ -214,11 +233,43 @@ class FullTranslator(Translator):
             return E(('%sbnotS %s' % (SEM, a)) if ty.signed else ('%sbnot %d %s' % (SEM, ty.w, a)), ty, e.defd)
         self.bad(n, 'unary operator %s' % op)
 
+    def deref(self, p, off):
+        """`*p` / `p[off]`: a read of the byte array (undefined outside it)"""
+        i = p.term if off is None else '%s + %s' % (paren(p.term), paren(off.term))
+        return E('%s%s buf %s' % (SEM, 'rdS' if p.ty.signed else 'rdU', paren(i)), Ty('int', 8, p.ty.signed),
+                 conj(p.defd, off.defd if off is not None else None, '%sinB buf %s' % (SEM, paren(i))))
+
+    def ex_ArraySubscriptExpr(self, n, env):
+        p, k = self.ex(n['inner'][0], env), self.ex(n['inner'][1], env)
+        if p.ty.kind != 'ptr' or k.ty.kind != 'int' or k.ty.w is None:
+            self.bad(n, 'subscript on %r with index %r' % (p.ty, k.ty))
+        return self.deref(p, k)
+
+    def ptr_arith(self, n, op, L, R):
+        """pointer ± integer, pointer − pointer, pointer comparisons (all pointers point into `buf`)"""
+        a, b = paren(L.term), paren(R.term)
+        dd = conj(L.defd, R.defd)
+        if op in CMP and L.ty.kind == 'ptr' and R.ty.kind == 'ptr':
+            return E('%s%s %s %s' % (SEM, CMP[op], a, b), T_BOOL, dd)
+        if op == '-' and L.ty.kind == 'ptr' and R.ty.kind == 'ptr':
+            return E('%s - %s' % (a, b), self.resolve(n['type'], n), dd)
+        if op in ('+', '-') and L.ty.kind == 'ptr' and R.ty.kind == 'int' and R.ty.w is not None:
+            t = '%s %s %s' % (a, op, b)
+            return E(t, L.ty, conj(dd, '%sptrOk buf (%s)' % (SEM, t)))
+        if op == '+' and R.ty.kind == 'ptr' and L.ty.kind == 'int' and L.ty.w is not None:
+            t = '%s + %s' % (b, a)
+            return E(t, R.ty, conj(dd, '%sptrOk buf (%s)' % (SEM, t)))
+        self.bad(n, 'pointer operator %s on %r and %r' % (op, L.ty, R.ty))
+
     def ex_BinaryOperator(self, n, env):
         op = n['opcode']
         if op == '=' or op == ',':
             self.bad(n, 'operator `%s` inside an expression (assignments are only translated as statements)' % op)
         L, R = self.ex(n['inner'][0], env), self.ex(n['inner'][1], env)
+        if L.ty.kind == 'ptr' or R.ty.kind == 'ptr':
+            if op in ('&&', '||'):
+                self.bad(n, '%s on a pointer operand' % op)
+            return self.ptr_arith(n, op, L, R)
         return self.binop(n, op, L, R, n['type'])
 
     def ex_CompoundAssignOperator(self, n, env):
@@ -333,10 +384,12 @@ class FullTranslator(Translator):
         if len(al) != len(it.params):
             self.bad(n, 'call with %d arguments to a function translated with %d parameters (default arguments?)' % (len(al), len(it.params)))
         for a, (pn, pt) in zip(al, it.params):
-            if a.ty.kind != pt.kind or (pt.kind == 'int' and (a.ty.w, a.ty.signed) != (pt.w, pt.signed)) or \
+            if a.ty.kind != pt.kind or (pt.kind in ('int', 'ptr') and (a.ty.w, a.ty.signed) != (pt.w, pt.signed)) or \
                     (pt.kind == 'rec' and a.ty.rec['id'] != pt.rec['id']):
                 self.bad(n, 'argument type %r does not match parameter type %r' % (a.ty, pt))
-        argt = ''.join(' ' + paren(a.term) for a in al)
+        argt = (' buf' if it.buf else '') + ''.join(' ' + paren(a.term) for a in al)
+        if it.buf:
+            env.buf = True
         dd = conj(*([a.defd for a in al] + ([self_arg.defd] if self_arg is not None and not it.uses_self else [])),
                   None if it.defd_trivial else '%s_defined%s' % (it.full, argt))
         return E(it.full + argt, it.ret, dd)
